@@ -334,7 +334,7 @@ func TestLifecycleHistoriesRapid(t *testing.T) {
 		nSteps := rapid.IntRange(3, vx.Pick(30, 45)).Draw(rt, "steps")
 		for i := 0; i < nSteps; i++ {
 			s := step{
-				kind:  rapid.SampledFrom([]string{"start", "start", "start", "stop", "editor-state", "editor-state", "editor-lock", "lc-state", "lc-state", "advance", "advance", "advance", "remove-owner", "deactivate-and-orphan", "lock-pending", "lock-pending", "orphan-own", "orphan-own"}).Draw(rt, "kind"),
+				kind:  rapid.SampledFrom([]string{"start", "start", "start", "stop", "editor-state", "editor-state", "editor-lock", "lc-state", "lc-state", "advance", "advance", "advance", "remove-owner", "deactivate-and-orphan", "lock-pending", "lock-pending", "orphan-own", "orphan-own", "start-race", "start-race"}).Draw(rt, "kind"),
 				who:   rapid.IntRange(0, nL-1).Draw(rt, "who"),
 				part:  int32(rapid.IntRange(0, 3).Draw(rt, "part")),
 				state: rapid.SampledFrom([]ring.PartitionState{ring.PartitionPending, ring.PartitionActive, ring.PartitionInactive, ring.PartitionDeleted, ring.PartitionUnknown}).Draw(rt, "state"),
@@ -351,6 +351,7 @@ func TestLifecycleHistoriesRapid(t *testing.T) {
 		nontrivial := false
 		lockedPending := 0
 		ownerless := 0
+		raced := 0
 		vx.Bubble(t, func(b *vx.B) {
 			t0 := time.Now()
 			store, closer := consul.NewInMemoryClient(ring.GetPartitionRingCodec(), log.NewNopLogger(), nil)
@@ -385,6 +386,33 @@ func TestLifecycleHistoriesRapid(t *testing.T) {
 			for si, s := range steps {
 				hist = append(hist, fmt.Sprintf("t=%v %s who=%d part=%d state=%v flag=%v dt=%v", time.Since(t0), s.kind, s.who, s.part, s.state, s.flag, s.dt))
 				switch s.kind {
+				case "start-race":
+					// constructed: the lifecycler's first write at startup loses a race against another owner of
+					// the same partition, which creates the partition and sees it promoted in between: the
+					// function of the lost write is evaluated again and must look at the ring again
+					if running[s.who] || !cfgs[s.who].createOnStartup {
+						break
+					}
+					lcs[s.who] = mk(s.who)
+					pid := cfgs[s.who].part
+					recs[s.who].Interpose = func() {
+						_ = store.CAS(context.Background(), "pring", func(v interface{}) (interface{}, bool, error) {
+							d := ring.GetOrCreatePartitionRingDesc(clonePD(v))
+							if d.HasPartition(pid) {
+								return nil, false, nil
+							}
+							d.AddPartition(pid, ring.PartitionPending, time.Now())
+							d.AddOrUpdateOwner("rival-owner", ring.OwnerActive, pid, time.Now())
+							_, _ = d.UpdatePartitionState(pid, ring.PartitionActive, time.Now())
+							raced++
+							return d, true, nil
+						})
+					}
+					if err := services.StartAndAwaitRunning(context.Background(), lcs[s.who]); err != nil {
+						failure = fmt.Sprintf("step %d: lifecycler %d failed to start after losing the startup race: %v", si, s.who, err)
+						return
+					}
+					running[s.who] = true
 				case "start":
 					if !running[s.who] {
 						lcs[s.who] = mk(s.who)
@@ -636,6 +664,10 @@ func TestLifecycleHistoriesRapid(t *testing.T) {
 		}
 		if lockedPending > 0 {
 			vx.Class("histories_with_a_pending_partition_locked", 1)
+			nontrivial = true
+		}
+		if raced > 0 {
+			vx.Class("histories_with_a_lost_startup_race", 1)
 			nontrivial = true
 		}
 		if ownerless > 0 {
